@@ -2048,6 +2048,109 @@ mod c08 {
         }
     }
 
+    /// A lazily produced stream of zero bytes: `n` empty stored chunks (8 zero bytes are a well-formed header of an
+    /// empty chunk) and no footer.
+    struct ZeroStream {
+        left: u64,
+    }
+    impl futures::AsyncRead for ZeroStream {
+        fn poll_read(mut self: std::pin::Pin<&mut Self>, _cx: &mut std::task::Context<'_>, buf: &mut [u8]) -> std::task::Poll<std::io::Result<usize>> {
+            let n = (buf.len() as u64).min(self.left) as usize;
+            buf[..n].fill(0);
+            self.left -= n as u64;
+            std::task::Poll::Ready(Ok(n))
+        }
+    }
+
+    /// per chunk a footer holds one hash and two 32-bit offsets; its fixed fields take 52 bytes
+    const FOOTER_FIXED: u64 = 52;
+    const FOOTER_PER_CHUNK: u64 = 40;
+
+    /// the run-length merkle reference against the plain one, on every list it is used for in small and on mixed runs
+    fn check_merkle_runs() {
+        let e = (rm::chunk_hash(&[]), 0u64);
+        let a = (rm::chunk_hash(b"a"), 1u64);
+        let z = (hw_zero_mod_4(), 5u64);
+        for n in 1..=800u64 {
+            let list = vec![e; n as usize];
+            if rm::merkle_root_runs(&[(e, n)]) != rm::xorb_hash(&list) {
+                machinery_error(&format!("run-length merkle reference differs from the plain one on {n} empty chunks"));
+            }
+        }
+        for (x, y, w) in [(e, a, z), (z, e, a), (a, z, z)] {
+            for i in 0..40u64 {
+                for j in 0..40u64 {
+                    for k in [0u64, 1, 2, 3, 9, 10, 28] {
+                        let mut list = vec![x; i as usize];
+                        list.extend(vec![y; j as usize]);
+                        list.extend(vec![w; k as usize]);
+                        if list.is_empty() {
+                            continue;
+                        }
+                        if rm::merkle_root_runs(&[(x, i), (y, j), (w, k)]) != rm::xorb_hash(&list) {
+                            machinery_error(&format!("run-length merkle reference differs from the plain one on runs {i},{j},{k}"));
+                        }
+                    }
+                }
+            }
+        }
+    }
+    /// some hash whose last word is 0 mod 4 (the fan-out rule's cut condition)
+    fn hw_zero_mod_4() -> RH {
+        let mut i = 0u32;
+        loop {
+            let h = rm::chunk_hash(&i.to_le_bytes());
+            if u64::from_le_bytes(h[24..32].try_into().unwrap()) & 3 == 0 {
+                return h;
+            }
+            i += 1;
+        }
+    }
+
+    /// Footer-less streams with one chunk more than a generated footer can describe: the footer locates its hash and
+    /// boundary sections by 32-bit offsets from the end, 40 bytes per chunk, so beyond 107 374 181 chunks no footer
+    /// exists.  Whatever the stream validator answers, it must not panic, and an acceptance would vouch for a footer
+    /// whose section offsets are wrong.  (859 MB of input produced lazily; the validator's own tables for that many
+    /// chunks take several GB, so the allocation cap is off here and the peak is reported.)
+    pub fn check_many_chunks(out: &mut Partial) {
+        check_merkle_runs();
+        let max_n = (u32::MAX as u64 - FOOTER_FIXED) / FOOTER_PER_CHUNK;
+        let n = max_n + 1;
+        let origin = format!("many-chunks-{n}-empty-no-footer");
+        let replay = json!({"lab": "xorb", "kind": "c08-many-chunks", "origin": origin, "mutation": "unmutated", "bytes_hex": Value::Null, "hashes": []});
+        let h = rm::merkle_root_runs(&[((rm::chunk_hash(&[]), 0), n)]);
+        let mh = rm::to_mh(&h);
+        let mut meter = Meter { max_single: 0, max_peak: 0, max_micros: 0 };
+        let (r, _us) = measured(&mut meter, || {
+            let mut rd = ZeroStream { left: n * 8 };
+            futures::executor::block_on(cas_object::validate_cas_object_from_async_read(&mut rd, &mh))
+        });
+        out.count("inputs", 1);
+        out.count("vac:many_chunk_validations", 1);
+        let name = "validate_cas_object_from_async_read";
+        match r {
+            Err(_) => {
+                out.count("many-chunks:panic", 1);
+                out.violation(&panic_sig("C08"), format!("{name} panicked on a footer-less stream of {n} empty chunks ({} bytes) [{origin}]", n * 8), replay.clone());
+            },
+            Ok(Ok(Some((c, _)))) => {
+                out.count("many-chunks:accept", 1);
+                let want = FOOTER_FIXED + FOOTER_PER_CHUNK * n;
+                let got = c.info.hashes_section_offset_from_end as u64;
+                if got != want || c.info.num_chunks as u64 != n {
+                    out.violation(
+                        "C08/accepts-footer-mismatch",
+                        format!("{name} accepted a footer-less stream of {n} empty chunks; the footer it vouches for places its hash section {got} bytes from the end, the sections of {n} chunks take {want} [{origin}]"),
+                        replay.clone(),
+                    );
+                }
+            },
+            Ok(Ok(None)) => out.count("many-chunks:reject", 1),
+            Ok(Err(e)) => out.count(&format!("many-chunks:error:{}", err_kind(&e)), 1),
+        }
+        out.max("max:many_chunks_peak_live_bytes", meter.max_peak as u64);
+    }
+
     /// the inputs of one job, in order
     fn job_inputs(spec: &Value, seeds: &[Seed], tier: Tier) -> Vec<(String, String, Vec<u8>, Vec<RH>, Option<usize>)> {
         let mut v = vec![];
@@ -2107,6 +2210,12 @@ mod c08 {
         let tier = if spec["tier"].as_str() == Some("thorough") { Tier::Thorough } else { Tier::Quick };
         let sabotage: u8 = std::env::var("XORB_LAB_SABOTAGE").ok().and_then(|s| s.parse().ok()).unwrap_or(0);
         let seeds = seeds(tier);
+        if spec["manychunks"].as_bool() == Some(true) {
+            let mut out = Partial::default();
+            check_many_chunks(&mut out);
+            out.write_out(args.out.as_ref().expect("--out"));
+            return;
+        }
         if spec["oversized"].as_bool() == Some(true) {
             let mut out = Partial::default();
             CAP_ON.store(true, Ordering::SeqCst);
@@ -2183,7 +2292,9 @@ mod c08 {
                 .unwrap_or_else(|e| machinery_error(&format!("parse replay: {e}")));
             let r = &v["replay"];
             let origin = r["origin"].as_str().unwrap_or("");
-            if origin.starts_with("oversized-") {
+            if origin.starts_with("many-chunks-") {
+                specs.push(("replay".into(), json!({"manychunks": true, "tier": tier.name()})));
+            } else if origin.starts_with("oversized-") {
                 specs.push(("replay".into(), json!({"oversized": true, "tier": tier.name()})));
             } else if !r["bytes_hex"].is_string() && origin.starts_with("big-") {
                 // large valid xorbs are regenerated from their description; the whole 8-input job is re-run
@@ -2221,6 +2332,11 @@ mod c08 {
             }
             // crafted well-formed objects whose chunks unpack to 2^32 bytes (19 MB each, a few seconds in all)
             specs.push(("oversized".into(), json!({"oversized": true, "tier": tier.name()})));
+            // one chunk more than a generated footer can describe (thorough only: 859 MB of lazily produced input,
+            // several GB of validator tables, about a minute)
+            if tier == Tier::Thorough && std::env::var("XORB_LAB_NO_MANY_CHUNKS").is_err() {
+                specs.push(("manychunks".into(), json!({"manychunks": true, "tier": tier.name()})));
+            }
             let tiny: Vec<(&str, usize)> = tier.pick(vec![("full", 1), ("five", 6)], vec![("full", 2), ("five", 8)]);
             for (kind, maxlen) in tiny {
                 let total = tiny_count(kind, maxlen);
